@@ -93,6 +93,10 @@ a_real a_mf_tri(a_real x, a_real a, a_real b, a_real c)
         {
             x = (c - x) / (c - b);
         }
+        else if (x == b) /* b == c: the peak itself */
+        {
+            x = 1;
+        }
         else /* c <= x */
         {
             x = 0;
